@@ -2,6 +2,7 @@ import BeffVerif.Driver.Codec
 import BeffVerif.Model.TsCore
 import BeffVerif.Model.Spec
 import BeffVerif.Model.Describe
+import BeffVerif.Model.Totality
 /-! Driver handler for `(prog <id> <tscore-prog> <files> <values>)` (C01, C08, C15, C04). -/
 namespace BeffVerif.Driver
 open BeffVerif
@@ -113,5 +114,23 @@ def describeHyps (progS : Sexp) : Sexp :=
        (if Spec.noTemplateAlternation p then [] else [Sexp.atom "NoTemplateAlternation"]) ++
        (if Spec.noMixedIndexObject p then [] else [Sexp.atom "NoMixedIndexObject"])))
   | none => .list [.atom "hyp-failed"]
+
+/-- `(total id prog|none files values)`: outcome class predicted by the compiler model -/
+def totalOp (progS : Sexp) : Sexp :=
+  match progS with
+  | .atom "none" => .atom "untied"
+  | _ =>
+    match decProg progS with
+    | some p =>
+      match compile p with
+      | .ok _ _ => .list [.atom "outcome", .atom "ok"]
+      | .diags _ => .list [.atom "outcome", .atom "diags"]
+      | .nofuel => .atom "model-nofuel"
+    | none => .list [.atom "model-decode-error"]
+
+/-- `(loc "<src>" lo hi)`: line/column of a span (`span_to_loc`) -/
+def locOp (src : String) (lo hi : Nat) : Sexp :=
+  let ((l0, c0), (l1, c1)) := Totality.spanToLoc src lo hi
+  .list [.atom "loc", .atom (toString l0), .atom (toString c0), .atom (toString l1), .atom (toString c1)]
 
 end BeffVerif.Driver
